@@ -41,14 +41,14 @@ where
 
 /-- interim evaluator: substitution only; `{{` is outside its domain -/
 def simpleEvalr : Evalr Nat where
-  evalAttr := fun lookup rng v =>
-    let s := evalVars lookup v
+  evalAttr := fun _ env rng v =>
+    let s := evalVars (Attrs.lookupTable env) v
     if (findSub cs!"{{" s).isSome then .error .other else .ok (s, rng)
-  evalCondition := fun lookup rng v =>
-    match strp (evalVars lookup v) with
+  evalCondition := fun _ env rng v =>
+    match strp (evalVars (Attrs.lookupTable env) v) with
     | some q => .ok (q != 0, rng)
     | none => .error .other
-  evalList := fun _ rng v =>
+  evalList := fun _ _ rng v =>
     -- numeric literals separated by commas (the full grammar is Svgdx.Expr's business)
     let items := (splitBy (· == ',') v).map trim
     if v.isEmpty then .error .parse
